@@ -760,6 +760,16 @@ example : (exP.reorder [2, 0, 1]).interaction = [[0, 3, 4], [3, 0, 2], [4, 2, 0]
 example : EmuVerif.Stepper.installedDrive .repaired [2, 0, 1] exP.drives 1 = (exP.reorder [2, 0, 1]).drives[1]? :=
   (installed_is_reorder ex_isPerm exP_WF).2.1 1
 
+/-- the hypotheses of `C03_ideal_installed` are satisfiable: `Q` := what the constructor model installs for `exP` -/
+example : permuteResults [2, 0, 1] (idealRun exPh (exP.reorder [2, 0, 1])) true = some (idealRun exPh exP) := by
+  obtain ⟨h1, h2, h3, h4⟩ := installed_is_reorder ex_isPerm exP_WF
+  refine C03_ideal_installed exPh exP (exP.reorder [2, 0, 1]) [2, 0, 1] ex_isPerm exP_WF (by decide) h1 h2 h4 ?_
+  rw [mapOpt_eq_some_map _ (fun kv => (gatherT kv.1 [2, 0, 1], kv.2))]
+  · rfl
+  · intro kv hkv
+    rw [h3 kv hkv]
+    rfl
+
 end examples
 
 end EmuVerif.Props.C03Ideal
